@@ -73,6 +73,8 @@ def _case_sig(c):
                                                                   " uri=no-path" if c.get("nopath") else "")
     if k == "grpc":
         return "kind=grpc status=%d" % c["status"]
+    if k == "grpcfile":
+        return "kind=grpcfile n=%d pattern=%s" % (c["n"], ",".join(x or "<untagged>" for x in c["pattern"]))
     if k in ("grpcbad", "grpcfail"):
         return "kind=%s what=%s" % (k, c["what"])
     if k == "httpscn":
@@ -84,6 +86,10 @@ def _case_sig(c):
             "st%d" % s["status"] + ("" if s.get("pre", "none") in ("none", "ok") else "+pre:" + s["pre"]) +
             ("" if s.get("post", "none") in ("none", "pass") else "+post:" + s["post"]) for s in c["steps"])
     return "kind=%s" % k
+
+
+def kinds_has_files(gen):
+    return any(c["c"]["kind"] == "grpcfile" for c in gen)
 
 
 def _shot_of(rows, ln):
@@ -124,10 +130,18 @@ def report(v, rows, tr, what):
         c = begin["c"] if begin else {"kind": "?"}
         keep = len(seen) <= 40   # replay files for the first violations only
         reps = [{k: r.get(k) for k in ("tags", "id", "proto", "net", "err")} for r in shot if r["ev"] == "Report"]
+        nreps = len(reps)
+        if c.get("kind") == "grpcfile":
+            # evidence only (TLC decided): the first samples whose tag is not an element of the pattern at that position
+            pat = c["pattern"]
+            odd = [dict(r, entry=i + 1, written=pat[i % len(pat)] or "<no tag key>") for i, r in enumerate(reps)
+                   if (r["tags"] or [""])[0] not in (pat[i % len(pat)], "__EMPTY__")]
+            reps = {"first_samples": reps[:6], "samples_under_a_foreign_tag": len(odd), "e.g.": odd[:4]}
+            shot = shot[:40]
         v.violation("coding %s inv=%s" % (_case_sig(c), inv),
                     "%s: case %s (ammo id %s) — the aggregator received %d sample(s) %s, target saw %s; invariant %s of "
                     "TraceSampleCoding fails at log line %d" % (what, json.dumps(c, sort_keys=True), begin.get("id") if begin else "?",
-                                                               len(reps), reps, shot[-1].get("seen") if shot else None, inv, ln),
+                                                               nreps, reps, shot[-1].get("seen") if shot else None, inv, ln),
                     replay_obj={"kind": what, "invariant": inv, "case": {"id": begin.get("caseid", 0), "c": c} if begin else None,
                                 "events": shot} if keep else None,
                     replay_name="%s_l%d_%s.json" % (what, ln, inv))
@@ -215,7 +229,7 @@ def pool_validate(v, path, what, timeout=900):
 def run(tier, v):
     thorough = tier == "thorough"
     sfx = "_big" if thorough else ""
-    negs = ["swap", "grpc_internal", "double", "double_post", "double_cancel", "no_empty_auto", "id_local", "depth_off", "no_empty"]
+    negs = ["swap", "grpc_internal", "double", "double_post", "double_cancel", "no_empty_auto", "id_local", "depth_off", "no_empty", "stale_tag"]
     # 1. design level + negative controls + generator, concurrently
     d = vlib.scratch()
     cases = os.path.join(d, "cases.ndjson")
@@ -297,6 +311,12 @@ def run(tier, v):
     if pcov1["recycled"] == 0 or pcov1["failed_object_reused_by_successful_shot"] == 0:
         # nothing was recycled: the run would not have exercised what it is for (machinery, not a verdict)
         raise vlib.MachineryError("pool run on one P recycled no sample object (%s)" % pcov1)
+    # grpc/json file cases: how many entries were shot with an ammo object an earlier entry had used (End.note)
+    import re
+    fnotes = [re.search(r"recycled=(\d+) calls=(\d+)", r.get("note", "")) for r in rows1 if r["ev"] == "End" and r.get("note")]
+    frecycled = sum(int(m.group(1)) for m in fnotes if m)
+    if kinds_has_files(gen) and frecycled == 0:
+        raise vlib.MachineryError("grpc/json file cases: no entry was shot with a recycled ammo object (%d cases)" % len(fnotes))
     _finish(v, rows1, tr1, "cases")
     _finish(v, rows2, tr2, "ids")
     kinds = {}
@@ -332,12 +352,14 @@ def run(tier, v):
         "evaluations": len(gen),
         "distinct_nontrivial": nontrivial,
         "rule": "complete case space generated by TLC (SampleCodingGen): HTTP statuses 200..599 + refused/reset/timeout/truncated, "
-                "gRPC codes 0..17,99 + client-side refused/timeout, unknown method / ill-typed payload, invalid ammo, {tagged, untagged} x auto-tag settings x "
+                "gRPC codes 0..17,99 + client-side refused/timeout, unknown method / ill-typed payload, invalid ammo, heterogeneous grpc/json files (tagged / untagged / undecodable lines, several times the provider queue long), {tagged, untagged} x auto-tag settings x "
                 "URI shapes (0-4 segments, trailing slash, 3 query forms) x formats, scenario shots = all sequences (<= 2, thorough 3) "
                 "of step variants {exchange outcomes; postprocessor none/pass/assertfail/extractfail x 200/404/500; preprocessor "
                 "ok/fail; template failure; sleep} for the http and the grpc scenario gun; "
                 "non-trivial = anything but the plain 200 exchange",
         "cases_by_kind": kinds,
+        "grpc_file_entries": sum(c["c"]["n"] for c in gen if c["c"]["kind"] == "grpcfile"),
+        "grpc_file_entries_shot_with_a_recycled_ammo_object": frecycled,
         "case_trace_states": tr1.distinct, "ids_trace_states": tr2.distinct,
         "concurrent_shots": shots2, "instances": n_inst, "acquisitions_per_instance": n_acq, "provider_rounds": rounds,
         "negative_controls": negs,
@@ -347,7 +369,8 @@ def run(tier, v):
         "scenario samples: first tag must be <scenario>.<step>; extra tags (the guns add __EMPTY__ on a failed step) tolerated",
         "scenario step that fails before sending (preprocessor / template): exactly one sample, proto 0, net not pinned; step whose "
         "postprocessor fails after a complete response: exactly one sample, proto = status received, net not pinned",
-        "gRPC: ammo always tagged; unknown method / ill-typed payload: only 'exactly one sample' is decided",
+        "gRPC: an untagged grpc/json entry (file cases): its sample must carry no tag of another entry - __EMPTY__ (the statement) and the "
+        "empty tag the gun reports today are both accepted; unknown method / ill-typed payload: only 'exactly one sample' is decided",
         "URIs without a path (query only, absolute-form): no auto-tag can be derived, __EMPTY__ unless the entry is tagged; a "
         "tagged entry with no-tag-only off is left out (the gun appends an empty tag, 't1|')",
         "cancelled scenario shots: the executed steps must be a prefix with one sample each (today's guns ignore the cancellation "
